@@ -35,6 +35,7 @@ LEVEL = "exploration"
 CFG = """SPECIFICATION Spec
 CONSTANTS BodyAlphabet = "%(alpha)s"
  MaxBody = %(k)d
+ SpellBody = 1
  EmitFrom = %(emit)d
 INVARIANTS TypeOK InDomain OracleLaws AlphabetOK EmitCase
 CHECK_DEADLOCK FALSE
@@ -53,8 +54,45 @@ WATCHDOG = 30.0
 TRIVIAL = {"a", "SP", "NL"}
 
 
-def concretise(seq):
-    return "".join(DECODED_ATOMS.get(x, W.CONCRETE.get(x, x)) for x in seq)
+MIXED = {"nowiki": "NoWiki", "pre": "Pre", "math": "Math", "source": "SourcE", "syntaxhighlight": "SyntaxHighlight",
+         "timeline": "TimeLine"}
+ATTR = {"source": ' lang="x"', "syntaxhighlight": ' lang="x"', "pre": ' style="color:red"', "math": ' display="block"',
+        "nowiki": ' class="k"', "timeline": ' class="k"'}
+
+
+def opener(tag, spell):
+    name = {"lower": tag, "UPPER": tag.upper(), "Mixed": MIXED[tag], "blank": tag, "attr": tag, "UPPERattr": tag.upper()}[spell]
+    tail = {"blank": " ", "attr": ATTR[tag], "UPPERattr": ATTR[tag]}.get(spell, "")
+    return "<%s%s>" % (name, tail)
+
+
+def closer(tag, spell):
+    name = {"lower": tag, "UPPER": tag.upper(), "Mixed": MIXED[tag], "blank": tag}[spell]
+    return "</%s%s>" % (name, " " if spell == "blank" else "")
+
+
+def atom_text(x, c):
+    """Text of one atom of a body / decoded body / restored text of case c."""
+    if x == "ESC_CLOSER":
+        return "&lt;/%s&gt;" % c["tag"]
+    if x == "LIT_CLOSER":
+        return "</%s>" % c["tag"]
+    if x == "OPEN":
+        return opener(c["tag"], c.get("ospell", "lower"))
+    if x == "CLOSE":
+        return closer(c["tag"], c.get("cspell", "lower"))
+    if x.startswith("LIT:"):
+        return x[4:]
+    return DECODED_ATOMS.get(x, W.CONCRETE.get(x, x))
+
+
+def concretise(seq, c):
+    return "".join(atom_text(x, c) for x in seq)
+
+
+def region_of(c, body=None):
+    return opener(c["tag"], c.get("ospell", "lower")) + concretise(c["body"] if body is None else body, c) + \
+        closer(c["tag"], c.get("cspell", "lower"))
 
 
 # ----------------------------------------------------------------------------- projection
@@ -114,14 +152,14 @@ def valid_entity(s):
     return s[1:-1] in html.entities.name2codepoint
 
 
-def atomwise(tag, body):
+def atomwise(c):
     """Is the atom-wise denotation of the spec applicable?  (no character entity arises across
-    lexeme boundaries: the valid entities of the text are exactly the entity atoms)"""
-    if tag not in ("nowiki", "pre"):
+    lexeme boundaries: the valid entities of the text are exactly those inside the single atoms)"""
+    if c["tag"] not in ("nowiki", "pre"):
         return True
-    text = W.concretise(body)
+    text = concretise(c["body"], c)
     found = [m.group(0) for m in _ENT.finditer(text) if valid_entity(m.group(0))]
-    atoms = [W.concretise([x]) for x in body if _ENT.fullmatch(W.concretise([x])) and valid_entity(W.concretise([x]))]
+    atoms = [m.group(0) for x in c["body"] for m in _ENT.finditer(atom_text(x, c)) if valid_entity(m.group(0))]
     return found == atoms
 
 
@@ -130,68 +168,64 @@ class Runner:
     def __init__(self, db, lang):
         self.db = db
         self.lang = lang
-        self.ref = {}        # (tag, ctx, mode) -> shape of the case with body <<a>>
-        self.single = {}     # (tag, atom, mode) -> fields failing for the one-lexeme body at top level
+        self.ref = {}        # (tag, ctx, mode, opener spelling) -> shape of the case with body <<a>>
+        self.single = {}     # (tag, atom, mode) -> failure of the one-lexeme body at top level
 
-    def region(self, tag, body):
-        return "<%s>%s</%s>" % (tag, W.concretise(body), tag)
-
-    def parse_case(self, tag, ctx, body, mode, page=None):
-        r = self.region(tag, body)
-        if ctx == "tplbody":
+    def parse_case(self, c, mode, page=None):
+        if c["ctx"] == "tplbody":
             raw = "{{%s}}" % page
         else:
-            raw = CTX[ctx] % r
+            raw = CTX[c["ctx"]] % region_of(c)
         with W.watchdog(WATCHDOG):
             return W.parse(raw, self.db if mode == "db" else None, self.lang)
 
-    def observe(self, tag, ctx, body, kind, mode, page=None):
+    def observe(self, c, mode, page=None):
         try:
-            art = self.parse_case(tag, ctx, body, mode, page)
+            art = self.parse_case(c, mode, page)
         except W.Hang:
             return {"hang": True}
         except Exception as e:                                      # noqa: BLE001
             return {"crash": W.crash_key("parse_string", e), "repr": repr(e)[:200]}
-        return project(art, kind)
+        return project(art, c["kind"])
 
-    def ref_shape(self, tag, ctx, kind, mode, refpage):
-        k = (tag, ctx, mode)
+    def ref_shape(self, c, mode):
+        k = (c["tag"], c["ctx"], mode, c.get("ospell", "lower"))
         if k not in self.ref:
-            self.ref[k] = self.observe(tag, ctx, ["a"], kind, mode, refpage).get("shape")
+            rc = dict(c, body=["a"], cspell="lower")
+            self.ref[k] = self.observe(rc, mode, "Bref-%s-%s" % (c["tag"], c.get("ospell", "lower"))).get("shape")
         return self.ref[k]
 
-    def compare(self, case, mode, page, refpage):
-        tag, ctx, body, kind = case["tag"], case["ctx"], case["body"], case["kind"]
-        obs = self.observe(tag, ctx, body, kind, mode, page)
+    def compare(self, case, mode, page):
+        obs = self.observe(case, mode, page)
         if "crash" in obs or "hang" in obs:
             return obs, ["crash" if "crash" in obs else "hang"]
         bad = []
         if obs["count"] != 1:
             bad.append("count")
-        if obs["text"] != concretise(case["decoded"]):
+        if obs["text"] != concretise(case["decoded"], case):
             bad.append("text")
-        if obs["shape"] != self.ref_shape(tag, ctx, kind, mode, refpage):
+        if obs["shape"] != self.ref_shape(case, mode):
             bad.append("shape")
         return obs, bad
 
 
 def roundtrip(case):
     from mwlib.utils.uniq import Uniquifier
-    t = CTX[case["ctx"]] % ("<%s>%s</%s>" % (case["tag"], W.concretise(case["body"]), case["tag"]))
+    t = CTX[case["ctx"]] % region_of(case)
     u = Uniquifier()
     got = u.replace_uniq(u.replace_tags(t))
-    want = CTX[case["ctx"]] % concretise(case["restored"])
+    want = CTX[case["ctx"]] % concretise(case["restored"], case)
     return got == want, got, want
 
 
 def _worker(args):
     job, lang, cases, scratch, nodbmod = args
     W.quiet()
-    pages = {"Template:Bref-%s" % t: CTX["tplbody"] % ("<%s>a</%s>" % (t, t))
-             for t in ("nowiki", "pre", "math", "source", "syntaxhighlight", "timeline")}
+    pages = {"Template:Bref-%s-%s" % (t, sp): CTX["tplbody"] % (opener(t, sp) + "a" + closer(t, "lower"))
+             for t in MIXED for sp in ("lower", "UPPER", "Mixed", "blank", "attr", "UPPERattr")}
     for cid, c in cases:
         if c["ctx"] == "tplbody":
-            pages["Template:B%d" % cid] = CTX["tplbody"] % ("<%s>%s</%s>" % (c["tag"], W.concretise(c["body"]), c["tag"]))
+            pages["Template:B%d" % cid] = CTX["tplbody"] % region_of(c)
     path = os.path.join(scratch, "odb-%d" % job)
     db = W.build_wikidb(path, lang, pages)
     run = Runner(db, lang)
@@ -199,7 +233,7 @@ def _worker(args):
     nparse = nskip = nround = 0
     nontrivial = 0
     for cid, c in cases:
-        if not atomwise(c["tag"], c["body"]):
+        if not atomwise(c):
             nskip += 1
             continue
         if any(x not in TRIVIAL for x in c["body"]):
@@ -208,7 +242,7 @@ def _worker(args):
         if c["ctx"] in PLAIN and (nodbmod is None or len(c["body"]) <= 1 or cid % nodbmod[0] == nodbmod[1]):
             modes.append("nodb")
         for mode in modes:
-            obs, bad = run.compare(c, mode, "B%d" % cid, "Bref-%s" % c["tag"])
+            obs, bad = run.compare(c, mode, "B%d" % cid)
             nparse += 1
             if not bad:
                 continue
@@ -222,7 +256,7 @@ def _worker(args):
                         run.single[k] = None
                         sc = _single_case(c["tag"], x)
                         if sc is not None:
-                            o2, b2 = run.compare(sc, mode, None, None)
+                            o2, b2 = run.compare(sc, mode, None)
                             nparse += 1
                             if b2:
                                 run.single[k] = {"cid": cid, "case": sc, "mode": mode, "lang": lang, "fields": b2,
@@ -253,20 +287,23 @@ def key_of(f):
     c = f["case"]
     if "crash" in f["observed"]:
         return f["observed"]["crash"]
-    return "opaque body=%s tag=%s ctx=%s mode=%s field=%s" % (
-        json.dumps(c["body"]), c["tag"], c["ctx"], f["mode"], "+".join(f["fields"]))
+    spell = "" if (c.get("ospell", "lower"), c.get("cspell", "lower")) == ("lower", "lower") else \
+        " open=%s close=%s" % (c["ospell"], c["cspell"])
+    return "opaque body=%s tag=%s%s ctx=%s mode=%s field=%s" % (
+        json.dumps(c["body"]), c["tag"], spell, c["ctx"], f["mode"], "+".join(f["fields"]))
 
 
 def what_of(f):
     c = f["case"]
     o = f["observed"]
+    where = "%r in %s [%s]" % (region_of(c), c["ctx"], f["mode"])
     if "crash" in o:
-        return "<%s> body %r in %s [%s]: %s" % (c["tag"], W.concretise(c["body"]), c["ctx"], f["mode"], o["repr"])
+        return "%s: %s" % (where, o["repr"])
     if f["mode"] == "uniq":
         return "replace_uniq(replace_tags(t)) = %r, expected %r" % (o["got"][:150], o["want"][:150])
-    return "<%s> body %r in %s [%s]: %s differ; node count %s, text %r (expected %r), shape %r" % (
-        c["tag"], W.concretise(c["body"]), c["ctx"], f["mode"], "/".join(f["fields"]), o.get("count"),
-        o.get("text") if not isinstance(o.get("text"), list) else o.get("text")[:3], concretise(c["decoded"]),
+    return "%s: %s differ; node count %s, text %r (expected %r), shape %r" % (
+        where, "/".join(f["fields"]), o.get("count"),
+        o.get("text") if not isinstance(o.get("text"), list) else o.get("text")[:3], concretise(c["decoded"], c),
         o.get("shape"))
 
 
@@ -293,30 +330,40 @@ def run(ctx):
     states, trans = r.distinct, r.generated
     nsim = 0
     if not quick:
-        seen = {(c["tag"], c["ctx"], tuple(c["body"])) for c in cases}
+        seen = {(c["tag"], c["ctx"], c["ospell"], c["cspell"], tuple(c["body"])) for c in cases}
         # (TLC's simulator evaluates the invariants, hence EmitCase, on every successor of the last
         #  state of a behaviour: each of the 400 random 2-lexeme prefixes comes with all third lexemes)
         for i in range(4):
             rs, cs = generate(ctx, alpha, 3, emit=3, simulate=400, seed=ctx.seed * 10 + i, name="opaque-sim-%d" % i)
             for c in cs:
-                k = (c["tag"], c["ctx"], tuple(c["body"]))
+                k = (c["tag"], c["ctx"], c["ospell"], c["cspell"], tuple(c["body"]))
                 if k not in seen:
                     seen.add(k)
                     cases.append(c)
                     nsim += 1
     atoms = {x for c in cases for x in c["body"]}
-    W.check_alphabet(ctx, atoms)
+    W.check_alphabet(ctx, atoms - {"ESC_CLOSER"})
     for c in cases:
-        if len(c["body"]) == 1 and c["ctx"] == "top":
+        if len(c["body"]) == 1 and c["ctx"] == "top" and (c["ospell"], c["cspell"]) == ("lower", "lower"):
             SINGLES[(c["tag"], c["body"][0])] = c
-    expect = 36 * sum((len(atoms) - 1) ** i for i in range(3))
+    nl = len(atoms) - 1
+    expect = 36 * ((1 + nl + nl * nl) + 23 * (1 + nl))     # 6 x 4 spellings; the 23 non-default ones with bodies <= 1
     nb = len([c for c in cases if len(c["body"]) <= 2])
     # per tag the own closer is excluded: every tag has the same number of lexemes
     if nb != expect:
         ctx.machinery("Opaque.tla emitted %d cases with <= 2 lexemes, expected %d" % (nb, expect))
     t1 = time.time()
     lang = W.LANGS[ctx.seed % len(W.LANGS)]
-    cases.sort(key=lambda c: (c["tag"], c["ctx"], c["body"]))     # TLC's BFS order depends on thread timing
+    cases.sort(key=lambda c: (c["tag"], c["ctx"], c["ospell"], c["cspell"], c["body"]))     # TLC's BFS order depends on thread timing
+    if quick:
+        # two-lexeme bodies: two of the six contexts each, rotating with the body and the seed (all
+        # contexts for bodies of <= 1 lexeme and for every spelling variant; thorough: everything)
+        import zlib
+        order = sorted(CTX)
+        ncases = len(cases)
+        cases = [c for c in cases if len(c["body"]) < 2 or
+                 (zlib.crc32(json.dumps([c["tag"], c["body"]]).encode()) + order.index(c["ctx"]) + ctx.seed) % 3 == 0]
+        ctx.note("quick: %d of %d cases selected" % (len(cases), ncases))
     indexed = list(enumerate(cases))
     random.Random(ctx.seed).shuffle(indexed)
     jobs = [(i, lang if quick else W.LANGS[(ctx.seed + i) % len(W.LANGS)], ch, ctx.scratch,
@@ -340,15 +387,16 @@ def run(ctx):
     ctx.set_cover(evaluations=nparse + nround, distinct_nontrivial=nontrivial, exhaustive=True,
                   cases=len(cases), parses=nparse, round_trips=nround, simulated_3_lexeme_cases=nsim,
                   body_alphabet=len(atoms), action_coverage=cov, outside_atomwise_denotation=nskip, states=states, transitions=trans,
-                  rule="every (tag, context, body) Opaque.tla generates — 6 tags x 6 contexts x all bodies of <= 2 lexemes over "
-                       "%d body lexemes%s — parsed with the production database (and without one in the plain contexts%s), tree "
+                  rule="every case Opaque.tla generates — 6 tags x 6 contexts x all bodies of <= 2 lexemes over %d body lexemes "
+                       "(incl. tags spelled through entities) with lower-case tags, and all bodies of <= 1 lexeme for the 23 other "
+                       "opener x closer spellings (UPPER / Mixed / blank before > / attributes)%s — parsed with the production database (and without one in the plain contexts%s), tree "
                        "projected to (count, text, shape) and compared with the spec's denotation; plus the uniq round trip; "
                        "distinct non-trivial = cases whose body contains a lexeme other than a / SP / NL"
                        % (len(atoms), "" if quick else " plus %d simulated 3-lexeme bodies" % nsim,
-                          ": single lexemes and a rotating quarter" if quick else ""))
+                          ": single lexemes and a rotating quarter; two-lexeme bodies in two of the six contexts, rotating with body and seed" if quick else ""))
     for cid, c in indexed[:3]:
-        ctx.sample({"tag": c["tag"], "ctx": c["ctx"], "body": c["body"], "text": CTX[c["ctx"]] % ("<%s>%s</%s>" % (c["tag"], W.concretise(c["body"]), c["tag"])),
-                    "kind": c["kind"], "decoded": concretise(c["decoded"])})
+        ctx.sample({"tag": c["tag"], "ctx": c["ctx"], "opener": c["ospell"], "closer": c["cspell"], "body": c["body"],
+                    "text": CTX[c["ctx"]] % region_of(c), "kind": c["kind"], "decoded": concretise(c["decoded"], c)})
     ctx.assume("for <pre> the spec models MediaWiki's own behaviour mirrored by mwlib: <nowiki>..</nowiki> pairs inside are unwrapped",
                "atom-wise decoding: cases in which a character entity would arise across lexeme boundaries are skipped (counted)",
                "shape = pre-order list of the non-text node classes; it must not depend on the body",
@@ -361,7 +409,7 @@ def replay(ctx, path):
     c = rec["case"]
     _, cases = generate(ctx, "structural", 1, name="opaque-replay")
     for x in cases:
-        if len(x["body"]) == 1 and x["ctx"] == "top":
+        if len(x["body"]) == 1 and x["ctx"] == "top" and (x["ospell"], x["cspell"]) == ("lower", "lower"):
             SINGLES[(x["tag"], x["body"][0])] = x
     fails, _, _, _, _ = _worker((0, rec.get("lang") or "en", [(0, c)], ctx.scratch, None))
     for f in fails:
